@@ -388,7 +388,9 @@ def run_property(ctx, prop, tie, props, spec="e2_chan"):
         if c["kind"] == "obs" and c.get("hooks"):
             ctx.notes.append("observation (not a violation) %s: %s" % (c["script"], c["hooks"]))
         for f in c["fails"]:
-            key = norm_key(f, "%s:%s" % (os.path.basename(c["script"]), f["key"]))
+            key = "%s:%s" % (os.path.basename(c["script"]), f["key"])
+            if c["kind"] == "known":
+                key = norm_key(f, key)
             ctx.violation(key, "%s (replay of %s)" % (f["what"], c["script"]),
                           open(os.path.join(ROOT, c["script"])).read())
         if c["kind"] != "known":
